@@ -324,6 +324,12 @@ Theorem c15_pretty_parse : forall v,
 Proof. intro v. split; [apply pretty_parse_ws|]. split; [apply compact_parse_ws|apply ser_lo_compact]. Qed.
 Print Assumptions c15_pretty_parse.
 
+(* the round trip does not depend on the particular layout: ANY whitespace-only layout (another indent width, CR LF line ends, spaces before
+   commas ...) of any value at any nesting depth parses back to the value *)
+Theorem c15_any_layout : forall L, ws_layout L -> forall v d, parse_ws (ser_lo L d v) = Some v.
+Proof. exact ser_lo_parse_ws. Qed.
+Print Assumptions c15_any_layout.
+
 (* the pretty bytes are valid UTF-8 as well: strict decoding returns the pretty code points *)
 Theorem c15_pretty_utf8 : forall v, jscalar v = true ->
   utf8_decode (length (utf8 (pretty v))) (utf8 (pretty v)) = Some (pretty v) /\ forallb scalar (pretty v) = true.
